@@ -23,7 +23,7 @@ Quad4 == { [sa |-> s, da |-> d, sp |-> p, dp |-> q] : s \in A4, d \in A4, p \in 
 Quad6 == { [sa |-> s, da |-> d, sp |-> p, dp |-> q] : s \in A6, d \in A6, p \in Ports, q \in Ports }
 
 Socks == { [fam |-> 4, ip |-> a, port |-> p, flow |-> 0, scope |-> 0] : a \in A4, p \in Ports }
-         \cup { [fam |-> 6, ip |-> a, port |-> p, flow |-> f, scope |-> f + 1] : a \in A6, p \in Ports, f \in {0, 77} }
+         \cup { [fam |-> 6, ip |-> a, port |-> p, flow |-> f, scope |-> sc] : a \in A6, p \in Ports, f \in {0, 77}, sc \in {0, 5} }
 
 Calls ==
     { [op |-> o, args |-> a] : o \in {"IPv4New", "V1NewTcp4", "V1FromIPv4", "V2FromIPv4"}, a \in Quad4 }
